@@ -6,6 +6,7 @@ import (
 	"fmt"
 	"io"
 	"runtime"
+	"time"
 
 	"github.com/smart-core-os/sc-api/go/traits"
 	"google.golang.org/grpc"
@@ -66,7 +67,7 @@ func (testSrv) ServerStream(req *testproto.ServerStreamRequest, s grpc.ServerStr
 
 func (testSrv) ClientStream(s grpc.ClientStreamingServer[testproto.ClientStreamRequest, testproto.ClientStreamResponse]) error {
 	_ = s.SetHeader(md("h", "cs"))
-	n := 0
+	n, linger := 0, false
 	for {
 		req, err := s.Recv()
 		if err == io.EOF {
@@ -77,13 +78,22 @@ func (testSrv) ClientStream(s grpc.ClientStreamingServer[testproto.ClientStreamR
 			return err
 		}
 		n += len(req.Msg)
+		if req.Msg == "linger" {
+			linger = true
+		}
 		if e := simErr(req.SimulateError); e != nil {
 			s.SetTrailer(md("t", "sim"))
 			return e
 		}
 	}
 	s.SetTrailer(md("t", "done"))
-	return s.SendAndClose(&testproto.ClientStreamResponse{Msg: fmt.Sprint(n)})
+	err := s.SendAndClose(&testproto.ClientStreamResponse{Msg: fmt.Sprint(n)})
+	if err == nil && linger {
+		// post-response work that lasts until the call ends (gRPC allows a handler to go on after SendAndClose);
+		// the client of such a call always cancels or has a deadline
+		<-s.Context().Done()
+	}
+	return err
 }
 
 func (testSrv) BidiStream(s grpc.BidiStreamingServer[testproto.BidiStreamRequest, testproto.BidiStreamResponse]) error {
@@ -168,7 +178,26 @@ func buildWrap(rng *vk.Rand, nOps int) *Prog {
 	}
 	p := newProg("wrap", rng, rng.Range(4, 12), 1)
 	p.flavor = "testapi"
-	client := testproto.NewTestApiClient(wrap.ServerToClient(testproto.TestApi_ServiceDesc, testSrv{}))
+	conn := wrap.ServerToClient(testproto.TestApi_ServiceDesc, testSrv{})
+	client := testproto.NewTestApiClient(conn)
+	// callCtx gives a call its own context: plain, or with a short deadline (wall clock only perturbs the schedule)
+	callCtx := func(deadlineUS int) (context.Context, context.CancelFunc) {
+		if deadlineUS > 0 {
+			return context.WithTimeout(context.Background(), time.Duration(deadlineUS)*time.Microsecond)
+		}
+		return context.WithCancel(context.Background())
+	}
+	// canceller cancels from a second goroutine after k yields, while the caller is inside a blocking call; the
+	// returned func joins it
+	canceller := func(cancel context.CancelFunc, k int) (join func()) {
+		done := make(chan struct{})
+		go func() {
+			defer close(done)
+			yields(k)
+			cancel()
+		}()
+		return func() { <-done }
+	}
 	spread(rng, p, nOps/3+1, func(gi int) {
 		serr := ""
 		if rng.Chance(1, 5) {
@@ -181,7 +210,93 @@ func buildWrap(rng *vk.Rand, nOps int) *Prog {
 		}
 		early := rng.Chance(1, 4) // ask for the header before anything was received
 		ylds := rng.Intn(3)
-		switch w := rng.Intn(100); {
+		// end-of-call variants for calls with a single response: the client goes away (cancel from a second goroutine
+		// after k yields, or a deadline) while it waits for / right after it got the response
+		k, deadlineUS := rng.Intn(24), 0
+		if rng.Chance(1, 3) {
+			deadlineUS = rng.Range(20, 1500)
+		}
+		switch w := rng.Intn(130); {
+		case w >= 100 && w < 118:
+			n := rng.Range(1, 3)
+			name := "wrap.ClientStream(linger,cancel)"
+			if deadlineUS > 0 {
+				name = "wrap.ClientStream(linger,deadline)"
+			}
+			p.add(gi, name, func(g *G) {
+				ctx, cancel := callCtx(deadlineUS)
+				defer cancel()
+				st, err := client.ClientStream(ctx)
+				if err != nil {
+					g.errs++
+					return
+				}
+				for i := 0; i < n; i++ {
+					if err := st.Send(&testproto.ClientStreamRequest{Msg: "linger"}); err != nil {
+						g.errs++
+						break
+					}
+				}
+				// the handler answers and then stays until the call ends, so somebody has to end it
+				join := func() {}
+				if deadlineUS == 0 {
+					join = canceller(cancel, k)
+				}
+				res, err := st.CloseAndRecv()
+				g.err(err)
+				g.sink += readMsg(res)
+				join()
+				afterEnd(g, st)
+			})
+		case w >= 118 && w < 124:
+			msg := rng.PickStr("a", "bb", "ccc", "dddd")
+			name := "wrap.Unary(concurrent-cancel)"
+			if deadlineUS > 0 {
+				name = "wrap.Unary(deadline)"
+			}
+			p.add(gi, name, func(g *G) {
+				ctx, cancel := callCtx(deadlineUS)
+				defer cancel()
+				join := func() {}
+				if deadlineUS == 0 {
+					join = canceller(cancel, k)
+				}
+				var h, t metadata.MD
+				res, err := client.Unary(ctx, &testproto.UnaryRequest{Msg: msg, SimulateError: serr}, grpc.Header(&h), grpc.Trailer(&t))
+				g.err(err)
+				join()
+				g.sink += readMsg(res) + readMD(h) + readMD(t)
+			})
+		case w >= 124:
+			msg := rng.PickStr("a", "bb", "ccc", "dddd")
+			concurrent := rng.Bool()
+			name := "wrap.UnaryAsStream"
+			p.add(gi, name, func(g *G) {
+				ctx, cancel := callCtx(deadlineUS)
+				defer cancel()
+				// a unary method driven through NewStream, as generic proxies do: send, close, receive once
+				cs, err := conn.NewStream(ctx, &grpc.StreamDesc{}, testproto.TestApi_Unary_FullMethodName)
+				if err != nil {
+					g.errs++
+					return
+				}
+				if err := cs.SendMsg(&testproto.UnaryRequest{Msg: msg, SimulateError: serr}); err != nil {
+					g.errs++
+				}
+				_ = cs.CloseSend()
+				join := func() {}
+				if concurrent && deadlineUS == 0 {
+					join = canceller(cancel, k)
+				}
+				res := &testproto.UnaryResponse{}
+				err = cs.RecvMsg(res)
+				g.err(errIfNotEOF(err))
+				join()
+				g.sink += readMsg(res)
+				if err != nil {
+					afterEnd(g, cs)
+				}
+			})
 		case w < 25:
 			msg := rng.PickStr("a", "bb", "ccc", "dddd")
 			pre := cancelAt == 0
